@@ -188,12 +188,14 @@ type Style struct {
 	// single lines ending in a line break also as folded ones (>) when Folded is set
 	BlockScalars bool
 	Folded       bool
+	// ScalarAnchors (with Anchors): repeated string values are anchored and aliased as well
+	ScalarAnchors bool
 }
 
 var numLikeKey = regexp.MustCompile(`^([0-9][0-9A-Za-z_.+-]*|true|false|null|True|NULL)$`)
 
 func (st Style) String() string {
-	return fmt.Sprintf("%s/quote=%s/comments=%v/indent=%d/keyquote=%v/marker=%v/anchors=%v/plainnumkeys=%v", st.Format, st.Quote, st.Comments, st.Indent, st.KeyQuote, st.Marker, st.Anchors, st.PlainNumKeys) + fmt.Sprintf("/blockscalars=%v/folded=%v", st.BlockScalars, st.Folded)
+	return fmt.Sprintf("%s/quote=%s/comments=%v/indent=%d/keyquote=%v/marker=%v/anchors=%v/plainnumkeys=%v", st.Format, st.Quote, st.Comments, st.Indent, st.KeyQuote, st.Marker, st.Anchors, st.PlainNumKeys) + fmt.Sprintf("/blockscalars=%v/folded=%v/scalaranchors=%v", st.BlockScalars, st.Folded, st.ScalarAnchors)
 }
 
 func (st Style) IsJSON() bool { return st.Format == "json" || st.Format == "jsonind" }
@@ -433,6 +435,9 @@ func canon(n *Node, sb *strings.Builder) {
 }
 
 func countSubtrees(n *Node, a *anchors) {
+	if n.Kind == 'v' && n.Tag == "str" && len(n.Value) >= 1 && len(n.Value) < 40 && !strings.ContainsAny(n.Value, "\n\r") {
+		a.count["scalar:"+n.Value]++
+	}
 	if n.Kind != 'v' && len(n.Vals) >= 2 {
 		var sb strings.Builder
 		canon(n, &sb)
@@ -502,6 +507,12 @@ func (st Style) emitBlock(n *Node, w *writer, ind string, inline bool, a *anchor
 					}
 				}
 				v.EL, v.EC = w.line-1, 1<<20
+			} else if txt, ok := st.anchoredScalar(v, a); ok {
+				w.write(" ")
+				w.start(v)
+				w.write(txt)
+				w.end(v)
+				w.write("\n")
 			} else if v.Kind == 'v' {
 				w.write(" ")
 				w.start(v)
@@ -547,6 +558,12 @@ func (st Style) emitBlock(n *Node, w *writer, ind string, inline bool, a *anchor
 					}
 				}
 				v.EL, v.EC = w.line-1, 1<<20
+			} else if txt, ok := st.anchoredScalar(v, a); ok {
+				w.write("- ")
+				w.start(v)
+				w.write(txt)
+				w.end(v)
+				w.write("\n")
 			} else if v.Kind == 'v' {
 				w.write("- ")
 				w.start(v)
@@ -566,6 +583,23 @@ func (st Style) emitBlock(n *Node, w *writer, ind string, inline bool, a *anchor
 		w.end(n)
 		w.write("\n")
 	}
+}
+
+// anchoredScalar spells a repeated string scalar as &sN value on its first occurrence and as *sN later.
+func (st Style) anchoredScalar(v *Node, a *anchors) (string, bool) {
+	if a == nil || !st.ScalarAnchors || v.Kind != 'v' || v.Tag != "str" {
+		return "", false
+	}
+	key := "scalar:" + v.Value
+	if a.count[key] < 2 {
+		return "", false
+	}
+	if name, seen := a.name[key]; seen {
+		return "*" + name, true
+	}
+	a.next++
+	a.name[key] = fmt.Sprintf("s%d", a.next)
+	return "&" + a.name[key] + " " + st.scalar(v), true
 }
 
 // Emit spells the tree and records node spans (in the tree itself).
@@ -620,6 +654,8 @@ func AllStyles() []Style {
 			}
 		}
 	}
+	// repeated string values anchored and aliased
+	styles = append(styles, Style{Format: "block", Quote: "plain", Indent: 2, Anchors: true, ScalarAnchors: true}, Style{Format: "block", Quote: "double", Indent: 4, Anchors: true, ScalarAnchors: true, KeyQuote: true})
 	// strings with line breaks as block scalars
 	styles = append(styles, Style{Format: "block", Quote: "plain", Indent: 2, BlockScalars: true}, Style{Format: "block", Quote: "double", Indent: 4, BlockScalars: true, Folded: true, KeyQuote: true},
 		Style{Format: "block", Quote: "single", Indent: 2, BlockScalars: true, Folded: true, Comments: true, Marker: true})
